@@ -64,6 +64,8 @@ def run(ck: Check) -> None:
     # corpus: published sample + shipped fixtures
     corpus = [{"k1": "v1", "k2": [1, 2, {"a": None}], "é": "\U0001f600\ud800", "f": [1e22, -0.0, float("nan")]},
               {"signatures": {"k": "ab" * 64}, "signed": {"signatures": {"x": "cd" * 64, "y": {"signature": "ef" * 64}}, "type": "root", "delegations": {}}},
+              {"brackets": "[" * 1500, "braces": "{" * 2500 + "}", "mixed": "[{" * 700, "quote-then-slashes": "2.5\" drives, see https://example.org // not a comment",
+               "comment-like": "/* x */ // y", "text": '{"a": [1, 2]}', "empty-object-text": "{}", "array-text": "[]"},
               [{"signatures": {"a": "01" * 64}}, {"signed": 1}, {"__class__": "x", "__type__": "y", "$ref": "#", "py/object": "z"}]]
     repo = os.environ.get("CCT_REPO", "/repo")
     for fn in ["tests/testdata/1.root.json", "tests/testdata/2.root.json", "tests/testdata/3.root.json",
